@@ -126,6 +126,86 @@ theorem noninterference (P : Prog σ) (f : FnId) (h : Clean P f) (fuel : Nat) (e
   subst hg
   exact h
 
+/-- what a clean command may not even touch: the global generator (its position), the hash
+    parameter and the schedule tape -/
+def Untouched (e e' : Env σ) : Prop := e'.global = e.global ∧ e'.hash = e.hash ∧ e'.sched = e.sched
+
+theorem exec_untouched (P : Prog σ) : ∀ (n : Nat) (c : Cmd σ) (e e' : Env σ),
+    CmdClean P c → exec P n c e = some e' → Untouched e e' := by
+  intro n
+  induction n with
+  | zero => intro c e e' _ h; simp [exec] at h
+  | succ n ih =>
+    intro c e e' hc h
+    cases c with
+    | pure f =>
+      simp only [exec, Option.some.injEq] at h
+      subst h; exact ⟨rfl, rfl, rfl⟩
+    | draw s k =>
+      have h1 := hc.1.1
+      have h2 := hc.1.2.1
+      have h3 := hc.1.2.2
+      cases s with
+      | seeded =>
+        simp only [exec, Env.read, Gen.next, Option.some.injEq] at h
+        subst h; exact ⟨rfl, rfl, rfl⟩
+      | global => simp [Cmd.reads] at h1
+      | hash => simp [Cmd.reads] at h2
+      | sched => simp [Cmd.reads] at h3
+    | seq a b =>
+      have hr := rdClean_or (a := a) (b := b) (fun t h => or_false_split _ _ h)
+        (by simpa only [RdClean, Cmd.reads] using hc.1)
+      have hca : CmdClean P a := ⟨hr.1, fun g hgm => hc.2 g (by simp [Cmd.calls, hgm])⟩
+      have hcb : CmdClean P b := ⟨hr.2, fun g hgm => hc.2 g (by simp [Cmd.calls, hgm])⟩
+      simp only [exec] at h
+      cases h1 : exec P n a e with
+      | none => simp [h1] at h
+      | some e1 =>
+        simp only [h1, Option.bind] at h
+        have u1 := ih a e e1 hca h1
+        have u2 := ih b e1 e' hcb h
+        exact ⟨u2.1.trans u1.1, u2.2.1.trans u1.2.1, u2.2.2.trans u1.2.2⟩
+    | ite cnd a b =>
+      have hr := rdClean_or (a := a) (b := b) (fun t h => or_false_split _ _ h)
+        (by simpa only [RdClean, Cmd.reads] using hc.1)
+      have hca : CmdClean P a := ⟨hr.1, fun g hgm => hc.2 g (by simp [Cmd.calls, hgm])⟩
+      have hcb : CmdClean P b := ⟨hr.2, fun g hgm => hc.2 g (by simp [Cmd.calls, hgm])⟩
+      simp only [exec] at h
+      split at h
+      · exact ih a e e' hca h
+      · exact ih b e e' hcb h
+    | loop cnd body =>
+      have hcb : CmdClean P body :=
+        ⟨by simpa only [RdClean, Cmd.reads] using hc.1,
+         fun g hgm => hc.2 g (by simpa [Cmd.calls] using hgm)⟩
+      simp only [exec] at h
+      split at h
+      · cases h1 : exec P n body e with
+        | none => simp [h1] at h
+        | some e1 =>
+          simp only [h1, Option.bind] at h
+          have u1 := ih body e e1 hcb h1
+          have u2 := ih (.loop cnd body) e1 e' hc h
+          exact ⟨u2.1.trans u1.1, u2.2.1.trans u1.2.1, u2.2.2.trans u1.2.2⟩
+      · simp only [Option.some.injEq] at h
+        subst h; exact ⟨rfl, rfl, rfl⟩
+    | call f =>
+      simp only [exec] at h
+      have hf : Clean P f := hc.2 f (by simp [Cmd.calls])
+      exact ih (P f) e e' (cmdClean_body P f hf) h
+
+/-- **A clean entry point leaves the process-global generator exactly where it was** (and the
+    schedule tape): the state of `random` / `numpy.random` after a seeded call equals the state
+    before it.  This is what the harness observes on every call (`random.getstate()`). -/
+theorem clean_leaves_global_untouched (P : Prog σ) (f : FnId) (h : Clean P f) (fuel : Nat)
+    (e e' : Env σ) (hex : exec P fuel (.call f) e = some e') : Untouched e e' := by
+  apply exec_untouched P fuel (.call f) e e' _ hex
+  refine ⟨⟨rfl, rfl, rfl⟩, ?_⟩
+  intro g hg
+  simp only [Cmd.calls, List.mem_singleton] at hg
+  subst hg
+  exact h
+
 /-! ## the fact table over-approximates the program -/
 
 /-- every read and every call of every body is recorded in the table -/
